@@ -152,10 +152,10 @@ pub fn c14(thorough: bool, seed: u64) -> CheckOutput {
                 if let Outcome::Ok(b) = &res.outcome {
                     let a = analyze(b, true);
                     let h = hash128(b);
-                    acc.distinct.insert(h);
+                    acc.ins_distinct(h);
                     if a.alias_inserts > 0 {
                         acc.count("analysed_outputs_with_aliasing_insertion", 1);
-                        acc.nontrivial.insert(h);
+                        acc.ins_nontrivial(h);
                     }
                     if a.cycles > 0 {
                         acc.count("analysed_outputs_with_identity_cycle", 1);
@@ -183,10 +183,10 @@ pub fn c14(thorough: bool, seed: u64) -> CheckOutput {
             if let Outcome::Ok(b) = &res.outcome {
                 let a = analyze(b, true);
                 let h = hash128(b);
-                acc.distinct.insert(h);
+                acc.ins_distinct(h);
                 acc.count("steered_alias_heavy_cases", 1);
                 if a.alias_inserts > 0 {
-                    acc.nontrivial.insert(h);
+                    acc.ins_nontrivial(h);
                     acc.count("steered_outputs_with_aliasing_insertion", 1);
                 }
                 if a.cycles > 0 {
@@ -209,8 +209,9 @@ pub fn c14(thorough: bool, seed: u64) -> CheckOutput {
         |i, acc| {
             let proto = (i % 6) as u8;
             let run = |acc: &mut Acc, record: bool| -> (isize, isize, Vec<isize>) {
+                // the monitor's own buffer is allocated outside the measured window
+                let mut samples: Vec<isize> = Vec::with_capacity(gens_per / 500 + 1);
                 let before = live();
-                let mut samples = Vec::new();
                 {
                     let cfg0 = Config::default_for(proto, Entropy::Seed(0));
                     let mut g = cfg0.build();
@@ -408,9 +409,9 @@ fn check_history(cfg: &Config, inputs: &[Vec<u8>], hist: &[Call], acc: &mut Acc)
         prev = Some(gb);
     }
     let h = hash128(format!("{}|{}", history_name(hist), cfg.short()).as_bytes());
-    acc.distinct.insert(h);
+    acc.ins_distinct(h);
     if n_gen >= 2 {
-        acc.nontrivial.insert(h);
+        acc.ins_nontrivial(h);
         acc.count("histories_with_two_or_more_generation_calls", 1);
     }
     if hist.iter().any(|c| matches!(c, Call::Reset)) {
@@ -526,9 +527,9 @@ fn check_c09(cfg: &Config, acc: &mut Acc) {
     }
     if let Outcome::Ok(b) = &res.outcome {
         let h = hash128(b);
-        acc.distinct.insert(h);
+        acc.ins_distinct(h);
         if b.len() > 2 {
-            acc.nontrivial.insert(h);
+            acc.ins_nontrivial(h);
         }
     }
     if cfg.unsafe_mut {
@@ -740,8 +741,8 @@ pub fn c09(thorough: bool, seed: u64) -> CheckOutput {
                             replay: json!({"kind": "c09-child", "property": "C09", "config": cfg.to_json(), "stack_mib": if *small_stack {2} else {8}, "message": msg}),
                         });
                     } else {
-                        acc.nontrivial.insert(hash128(name.as_bytes()));
-                        acc.distinct.insert(hash128(name.as_bytes()));
+                        acc.ins_nontrivial(hash128(name.as_bytes()));
+                        acc.ins_distinct(hash128(name.as_bytes()));
                     }
                 }
             }
@@ -850,10 +851,10 @@ pub fn c07(thorough: bool, seed: u64) -> CheckOutput {
         }
         let a = analyze(&reference[i], false);
         let h = hash128(&reference[i]);
-        acc.distinct.insert(h);
+        acc.ins_distinct(h);
         if a.max_memo >= 2 && a.gets >= 1 {
             memo_rich += 1;
-            acc.nontrivial.insert(h);
+            acc.ins_nontrivial(h);
         }
         if acc.samples.len() < 3 && a.max_memo >= 2 && a.gets >= 1 {
             acc.sample(sample_of(c, &reference[i], &a.op_names()));
